@@ -22,7 +22,9 @@ TRUSTED_BASE = c06.TRUSTED_BASE
 ASSUMPTIONS = [
     "no time or memory limit fires: Timeout answers are not judged (C15)",
     "robustly feasible := a witness exists on the step grid whose slack in every inequality is >= MARGIN(row) = 4*tol(row) + 20*step*sum|c_i| and which satisfies every equality exactly in rational arithmetic",
-    "theorem robust_witness_survives is about ONE pruning step of FloatLinLe in the exact-rational reading under magn_b; the step from there to `solve != NoSolution` (every pruning step of every propagator, every split keeps a child containing w, termination of the bisection) is validated by this run's differential only (declared gap)",
+    "PROVED (Properties/C07.v, bit-exact model): robust_never_nosolution -- if every propagator of the model satisfies the per-propagator contract wsafe_below (succeeds and keeps the witness, up to T >= 2.01 steps, on every store below the declared one) and every split point satisfies split_ok_hyp, the search never answers NoSolution, for every fuel and budget, every agenda order; propagation_keeps_witness, split_keeps_witness (int pivots exactly, float pivots with tolerance); the contract is proved for int-var/int-const comparisons and for float x <= c, c <= x (margin T steps), x <= y (margin 2T steps) inside Magn (wsafe_int_comparisons, wsafe_float_comparisons, near_setters); bisect_progress",
+    "PROVED IN TWO HALVES: FloatLinLe satisfies the contract if the bound it computes leaves the witness T steps (flin_le_wsafe_partial); the binary64 accumulation of n terms is within n*(2^-52*(|acc0|+sum|t_j|) + 2^-1074) of the exact sum (fsum_error_linear). NOT PROVED: the composition (rounding of the products, of K - sum and of the division) that would derive the accuracy hypothesis from slack >= 2.01*sum|c_j|*step_j + (n+3)*2^-52*(|K|+sum|c_j|*B_j), which MARGIN(row) exceeds",
+    "NOT PROVED: FloatLinEq, strict comparisons and == constant over floats (Eq<VarId,Val> is not wsafe under tolerance containment), split_ok_hyp (the fall-back mid passes fi_split_ok; floor(m/step)*step <= m <= ceil(m/step)*step as computed), termination (a solution is returned for enough fuel): these are carried by this run's witness-constructed families only",
 ]
 RULE = ("witness-constructed float/mixed models, 1-4 variables, 1-4 rows, all posting routes, precisions 1..12; Model::solve must not return NoSolution; non-trivial = at least one row")
 
